@@ -27,7 +27,8 @@ def run(tier):
                        'write err; the first error wins; no function moves iomode away from FAILED); br_ssl_engine_current_state returns '
                        'BR_SSL_CLOSED alone when closed and sets each of the four flags iff the matching *_buf call returns non-NULL; every *_buf '
                        'returns NULL once failed; the application-data gates of sendapp/recvapp; the half-duplex (shared buffer) mode switch is '
-                       'the first effect of recvrec_ack and sendpld_ack on every path. NOT decided: the pointer/length arithmetic of the six '
+                       'the first effect of recvrec_ack and sendpld_ack on every path; br_ssl_engine_close releases unread application data before it '
+                       'enters the closure handshake (afterwards the record could never be released and no operation would be offered). NOT decided: the pointer/length arithmetic of the six '
                        'buffer registers (run-time invariants).',
                        trusted=['clang/opt 14', 'debug-info struct layouts', 'whole-program store scan'])
     u = build.load_unit(S)
@@ -165,4 +166,6 @@ def run(tier):
         else:
             chk.ok(R, inst, F.where(c))
     chk.floor('obligations', len(chk.obls), 30)
+    from . import c19
+    c19.close_order(chk)
     return chk.finish()
